@@ -16,7 +16,7 @@ import (
 )
 
 type op struct {
-	Kind string // set get del cleanup reset adv group
+	Kind string // set get del cleanup reset adv group stop
 	Key  int
 	TTL  int64
 	Adv  string        // for adv: "before" (1ns before the next expiry), "at", "after", "dur"
@@ -71,6 +71,7 @@ type entry struct {
 
 type outcome struct {
 	overwrite, boundary, cleanedWithLive, group, capped bool
+	afterStop, stopInGroup, groupAfterStop              bool // operations went on after Stop / a Stop ran inside a concurrent group
 	hits, misses                                        int
 }
 
@@ -152,6 +153,12 @@ func runTTL(t *testing.T, c ttlCase) (out outcome, err error) {
 		}
 		for n, o := range c.Ops {
 			step := fmt.Sprintf("op %d %s", n, opString(o))
+			if stopped && o.Kind != "stop" {
+				out.afterStop = true
+				if o.Kind == "group" {
+					out.groupAfterStop = true
+				}
+			}
 			switch o.Kind {
 			case "set":
 				k := key(o.Key)
@@ -182,6 +189,17 @@ func runTTL(t *testing.T, c ttlCase) (out outcome, err error) {
 			case "reset":
 				cache.Reset()
 				model = map[string]entry{}
+			case "stop":
+				// Stop ends the background cleaner and nothing else: the cache stays usable, the model is the same
+				// (entries still expire by the clock, Cleanup still removes the expired ones, nothing else disappears).
+				cache.Stop()
+				stopped = true
+				if len(c.Ops)%6 == 0 {
+					if n, st := vk.HelpersParked("ttlcache."); n > 0 {
+						errs.Failf("%s returned while the background cleaner is still parked:\n%s", step, st)
+						return
+					}
+				}
 			case "adv":
 				var d time.Duration
 				if o.Adv == "dur" {
@@ -204,11 +222,21 @@ func runTTL(t *testing.T, c ttlCase) (out outcome, err error) {
 				}
 			case "group":
 				out.group = true
+				for _, sub := range o.Sub {
+					for _, so := range sub {
+						if so.Kind == "stop" {
+							out.stopInGroup = true
+						}
+					}
+				}
 				if !runGroup(&errs, cache, model, &nextVal, o, effTTL, step) {
 					return
 				}
 			}
 			synctest.Wait() // the periodic cleaner is parked again
+			if out.stopInGroup {
+				stopped = true
+			}
 			if !sweep(step) {
 				return
 			}
@@ -301,6 +329,8 @@ func runGroup(errs *vk.Errs, cache *ttlcache.Cache[int], model map[string]entry,
 					cache.Cleanup()
 				case "reset":
 					cache.Reset()
+				case "stop":
+					cache.Stop()
 				case "get":
 					got, ok := cache.Get(k)
 					if !ok {
@@ -382,7 +412,11 @@ func genTTL(rt *rapid.T) int64 {
 }
 
 func genSimple(rt *rapid.T, inGroup bool) op {
-	k := rapid.IntRange(0, 11).Draw(rt, "kind")
+	hi := 11
+	if inGroup {
+		hi = 12
+	}
+	k := rapid.IntRange(0, hi).Draw(rt, "kind")
 	switch {
 	case k <= 3:
 		return op{Kind: "set", Key: rapid.IntRange(0, nKeys-1).Draw(rt, "key"), TTL: genTTL(rt)}
@@ -396,6 +430,11 @@ func genSimple(rt *rapid.T, inGroup bool) op {
 		return op{Kind: "reset"}
 	case k == 8:
 		return op{Kind: "cleanup"}
+	case k == 12:
+		if rapid.IntRange(0, 5).Draw(rt, "stopInGroup") == 0 {
+			return op{Kind: "stop"} // Stop issued next to the other goroutines' operations
+		}
+		return op{Kind: "get", Key: rapid.IntRange(0, nKeys-1).Draw(rt, "key")}
 	default:
 		if inGroup {
 			return op{Kind: "set", Key: rapid.IntRange(0, nKeys-1).Draw(rt, "key"), TTL: genTTL(rt)}
@@ -406,14 +445,72 @@ func genSimple(rt *rapid.T, inGroup bool) op {
 	}
 }
 
+// Option values at and beyond the documented boundaries. The documentation: MaxTTL is the "Maximum TTL value in
+// seconds, if greater than 0" - so zero and every negative number mean "no cap"; CleanupInterval "is optional, and
+// defaults to 150s" - the zero value, and the implementation normalises every non-positive value to the default (a
+// negative interval is accepted here as "not configured", like zero); InitialSize is "optional, and if empty will be
+// left to the underlying library" - zero and negative sizes are left to the library. None of these may change what
+// Get returns: the model below knows MaxTTL only through "if greater than 0".
+var (
+	optMaxTTL = []int64{0, 0, 0, 2, 2, 5, 5, 1, -1, -2, -3600, math.MinInt64, 9223372035, 9223372036, 9223372037, math.MaxInt64}
+	// seconds are too coarse for the edge values, so the interval is drawn as a Duration
+	optInterval = []time.Duration{time.Second, time.Second, 3 * time.Second, 3 * time.Second, 7 * time.Second, 0, 0, 250 * time.Millisecond,
+		-1, -time.Second, -150 * time.Second, math.MinInt64, time.Hour, math.MaxInt64}
+	optInitial = []int32{0, 0, 1, 1, 8, 8, -1, -8, math.MinInt32, 4096}
+)
+
+func maxTTLClass(m int64) string {
+	switch {
+	case m < 0:
+		return "option.MaxTTL-negative"
+	case m == 0:
+		return "option.MaxTTL-zero"
+	case m > 1000000:
+		return "option.MaxTTL-huge"
+	}
+	return "option.MaxTTL-small"
+}
+
+func intervalClass(d time.Duration) string {
+	switch {
+	case d < 0:
+		return "option.CleanupInterval-negative"
+	case d == 0:
+		return "option.CleanupInterval-zero"
+	case d >= time.Hour:
+		return "option.CleanupInterval-huge"
+	}
+	return "option.CleanupInterval-small"
+}
+
+func initialClass(n int32) string {
+	switch {
+	case n < 0:
+		return "option.InitialSize-negative"
+	case n == 0:
+		return "option.InitialSize-zero"
+	case n >= 1024:
+		return "option.InitialSize-huge"
+	}
+	return "option.InitialSize-small"
+}
+
 func genCase(rt *rapid.T, groups bool) ttlCase {
 	c := ttlCase{
-		MaxTTL:   rapid.SampledFrom([]int64{0, 0, 2, 5}).Draw(rt, "maxTTL"),
-		Interval: time.Duration(rapid.SampledFrom([]int{1, 3, 7, 0}).Draw(rt, "intervalS")) * time.Second,
-		Initial:  rapid.SampledFrom([]int32{0, 1, 8}).Draw(rt, "initial"),
+		MaxTTL:   rapid.SampledFrom(optMaxTTL).Draw(rt, "maxTTL"),
+		Interval: rapid.SampledFrom(optInterval).Draw(rt, "interval"),
+		Initial:  rapid.SampledFrom(optInitial).Draw(rt, "initial"),
 	}
 	n := rapid.IntRange(1, 24).Draw(rt, "nops")
+	// every second history stops the cache somewhere in the middle and goes on using it
+	stopAt := -1
+	if rapid.Bool().Draw(rt, "stopInside") {
+		stopAt = rapid.IntRange(0, n-1).Draw(rt, "stopAt")
+	}
 	for i := 0; i < n; i++ {
+		if i == stopAt {
+			c.Ops = append(c.Ops, op{Kind: "stop"})
+		}
 		if groups && rapid.IntRange(0, 5).Draw(rt, "isGroup") == 0 {
 			g := op{Kind: "group"}
 			ng := rapid.IntRange(2, 4).Draw(rt, "ngo")
@@ -435,11 +532,13 @@ func genCase(rt *rapid.T, groups bool) ttlCase {
 
 func record(sec *vk.Section, c ttlCase, out outcome) {
 	var cls []string
-	for name, b := range map[string]bool{"overwrite": out.overwrite, "boundary-advance": out.boundary, "cleanup-with-live-entries": out.cleanedWithLive, "concurrent-group": out.group, "maxTTL-capped": out.capped} {
+	for name, b := range map[string]bool{"overwrite": out.overwrite, "boundary-advance": out.boundary, "cleanup-with-live-entries": out.cleanedWithLive, "concurrent-group": out.group, "maxTTL-capped": out.capped,
+		"operations-after-Stop": out.afterStop, "Stop-inside-concurrent-group": out.stopInGroup, "group-after-Stop": out.groupAfterStop} {
 		if b {
 			cls = append(cls, name)
 		}
 	}
+	cls = append(cls, maxTTLClass(c.MaxTTL), intervalClass(c.Interval), initialClass(c.Initial))
 	nt := out.hits > 0 && out.misses > 0 && (out.overwrite || out.boundary || out.cleanedWithLive || out.group)
 	sec.Case(nt, vk.FP(c.String()), cls...)
 	sec.Sample(func() any { return c.String() })
